@@ -323,7 +323,7 @@ def plan(tier):
                               defines=[tdef, 'C15_MODE=3', 'C15_PART=%d' % i], shards=1, gen={'constants.inc': cparts[i]}))
     # (4) deduction from run-time values
     for comp in ('g++', 'clang++'):
-        for part in range(5):
+        for part in range(6):
             units.append(dict(name='value-%s-p%d' % (comp, part), src='C15.cpp', compiler=comp, mode='ndebug', opt='-O0',
                               defines=[tdef, 'C15_MODE=4', 'VF_PART=%d' % part], shards=1))
     # (5) the descale step of _cnl/_cnl2 at run time
